@@ -45,7 +45,7 @@ def cases(rng, tier):
 
 
 def impl(c):
-    return H.replay(c)
+    return H.replay_all(c)
 
 
 def model_line(c):
@@ -56,7 +56,7 @@ def project(c, out):
     return out
 
 
-def oracle(c, out):
+def oracle_core(c, out):
     """the property statement over the observed history"""
     v = []
     def bad(what, **sig):
@@ -130,6 +130,9 @@ def oracle(c, out):
                 if want and o.get("error") not in want:
                     bad(f"poll of a {want[0].replace('_', ' ')} device code answered {o.get('error')}", kind="device-status", want=want[0])
     return v
+
+
+oracle = H.oracle_all(oracle_core)
 
 
 def classify(c, out):
